@@ -65,6 +65,9 @@ inline std::string pattern(uint64_t n, uint64_t k) {
     return o;
 }
 
+// called by the session runner before each API call of an exporter session (token text); set by the os layer
+extern void (*g_api_hook)(const char* token);
+
 // layer entry points: each reads request lines from stdin and prints result lines
 int run_enc(int argc, char** argv);
 int run_ts(int argc, char** argv);
